@@ -186,6 +186,31 @@ DeleteFrom(nodes, t, D, cap) ==
                       THEN (t :> Split(n.plane, L.ref, R.ref)) ELSE EmptyFn) @@ L.put @@ R.put,
              del |-> L.del \cup R.del]
 
+(***************************************************************************)
+(* The insertion phase as a RELATION between the forest before and after   *)
+(* (used on recorded phases, where the routing of each item is not known): *)
+(* ids of existing nodes and planes are kept, buckets only grow, a single   *)
+(* item may turn into a fresh bucket that contains it, nothing else moves.  *)
+(* Result: [ok, added] with the set of items that appeared below `ref`.     *)
+(***************************************************************************)
+RECURSIVE InsDiff(_, _, _, _, _)
+InsDiff(nB, refB, nA, refA, fuel) ==
+  IF fuel = 0 THEN [ok |-> FALSE, added |-> {}]
+  ELSE IF IsItem(refB)
+  THEN IF refA = refB THEN [ok |-> TRUE, added |-> {}]
+       ELSE IF IsTree(refA) /\ refA[2] \in DOMAIN nA /\ refA[2] \notin DOMAIN nB /\ IsBucket(nA[refA[2]]) /\ refB[2] \in nA[refA[2]].items
+       THEN [ok |-> nA[refA[2]].items # {refB[2]}, added |-> nA[refA[2]].items \ {refB[2]}]
+       ELSE [ok |-> FALSE, added |-> {}]
+  ELSE IF refA # refB \/ refB[2] \notin DOMAIN nB \/ refB[2] \notin DOMAIN nA THEN [ok |-> FALSE, added |-> {}]
+  ELSE LET b == nB[refB[2]]
+           a == nA[refB[2]]
+       IN IF IsBucket(b)
+          THEN [ok |-> IsBucket(a) /\ b.items \subseteq a.items, added |-> IF IsBucket(a) THEN a.items \ b.items ELSE {}]
+          ELSE IF ~IsSplit(a) \/ a.plane # b.plane THEN [ok |-> FALSE, added |-> {}]
+          ELSE LET l == InsDiff(nB, b.l, nA, a.l, fuel - 1)
+                   r == InsDiff(nB, b.r, nA, a.r, fuel - 1)
+               IN [ok |-> l.ok /\ r.ok /\ l.added \cap r.added = {}, added |-> l.added \cup r.added]
+
 \* delete_items_from_trees: every root is walked into one scratch file, which is applied at the end;
 \* the roots are then sorted
 RECURSIVE DelAllRoots(_, _, _, _, _)
